@@ -1021,8 +1021,18 @@ def oracle_gbuild(c, out):
 # ----------------------------------------------------------------------------------------------
 
 
+def gen_icmpv6_payload_cases(rng, tier):
+    """Icmpv6Payload::write: the fixed NDP payload parts (0 / 8 / 16 / 16 / 32 bytes) at every failure position"""
+    for kind, n in (("rs", 0), ("ra", 8), ("ns", 16), ("na", 16), ("rd", 32)):
+        for _ in range(3 if tier == "quick" else 40):
+            b = rbytes(rng, n)
+            yield write_case("icmpv6payload", [kind, hx(b)], list(range(0, n + 2)),
+                             {"len": n, "final": "ok", "ref": hx(b)})
+
+
 def generate(rng, tier):
     yield from gen_write_cases(rng, tier)
+    yield from gen_icmpv6_payload_cases(rng, tier)
     yield from gen_slice_cases(rng, tier)
     yield from gen_read_cases(rng, tier)
     yield from gen_limited_cases(rng, tier)
